@@ -161,6 +161,8 @@ pub struct Profile {
     pub w_verify: u64,
     pub w_z2: u64,
     pub w_z3: u64,
+    /// Z4: honest body behind a ground salt (extreme hash-to-point stream)
+    pub w_z4: u64,
     /// probability (in 1/256) that a delivery is clean (control group)
     pub clean: u64,
 }
@@ -172,6 +174,7 @@ pub const PROFILE_C03: Profile = Profile {
     w_verify: 40,
     w_z2: 22,
     w_z3: 4,
+    w_z4: 1,
     clean: 10,
 };
 
@@ -182,12 +185,13 @@ pub const PROFILE_C06: Profile = Profile {
     w_verify: 0,
     w_z2: 0,
     w_z3: 18,
+    w_z4: 0,
     clean: 24,
 };
 
 /// Generate one delivery.
 pub fn draw(rng: &mut Prng, pools: &Pools, mix: &FaultMix, prof: &Profile) -> Delivery {
-    let total = prof.w_pk + prof.w_sk + prof.w_sig + prof.w_verify + prof.w_z2 + prof.w_z3;
+    let total = prof.w_pk + prof.w_sk + prof.w_sig + prof.w_verify + prof.w_z2 + prof.w_z3 + prof.w_z4;
     let mut r = rng.below(total);
     let src_n = if rng.chance(1, 3) { 1024 } else { 512 };
     let p: Params = codec::params(src_n);
@@ -318,6 +322,29 @@ pub fn draw(rng: &mut Prng, pools: &Pools, mix: &FaultMix, prof: &Profile) -> De
             faults: vec![],
             origin: c.style.to_string(),
             detail: c.detail,
+        };
+    }
+    r -= prof.w_z2;
+    if r < prof.w_z4 {
+        // short message: the grinding cost is one SHAKE call per trial
+        let mlen = rng.usize_below(24);
+        let msg = rng.bytes(mlen);
+        let (salt, rej) = byz::grind_salt(rng, &msg, p.n, 1500);
+        let (_m, honest, pk) = pools.pick_sig(rng, src_n);
+        let mut b = honest.clone();
+        if b.len() >= 41 {
+            b[1..41].copy_from_slice(&salt);
+        }
+        return Delivery {
+            n: src_n,
+            target: Target::Verify,
+            bytes: b,
+            msg,
+            pk,
+            pristine: None,
+            faults: vec![],
+            origin: "Z4-salt-grind".to_string(),
+            detail: format!("{} rejected samples in the hash-to-point stream", rej),
         };
     }
     // Z3
